@@ -417,13 +417,8 @@ class Repo:
         if self._call_index is None:
             idx: Dict[str, List[Tuple[Module, ast.Call]]] = {}
             for m in self.modules.values():
-                for n in ast.walk(m.tree):
-                    if isinstance(n, ast.Call):
-                        f = n.func
-                        if isinstance(f, ast.Attribute):
-                            idx.setdefault(f.attr, []).append((m, n))
-                        elif isinstance(f, ast.Name):
-                            idx.setdefault(f.id, []).append((m, n))
+                for name, calls in module_calls(m).items():
+                    idx.setdefault(name, []).extend((m, c) for c in calls)
             self._call_index = idx
         return self._call_index
 
@@ -561,3 +556,88 @@ def norm(node: ast.AST) -> str:
 def find_stmts(fn: ast.AST, pred) -> List[ast.stmt]:
     return [n for n in walk_no_nested(fn) if isinstance(n, ast.stmt)
             and pred(n)]
+
+
+# ----------------------------------------------------------------------
+# per-tree memo (trees are shared between a base Repo and its overlays)
+
+_TREE_MEMO: Dict[Tuple[int, str], object] = {}
+
+
+def tree_memo(tree: ast.AST, key: str, compute):
+    k = (id(tree), key)
+    if k not in _TREE_MEMO:
+        _TREE_MEMO[k] = (tree, compute(tree))   # keep tree alive: id stable
+    return _TREE_MEMO[k][1]
+
+
+_MUT = {'append', 'appendleft', 'pop', 'popleft', 'clear', 'remove',
+        'extend', 'insert', 'update', 'setdefault', 'popitem', 'add',
+        'discard', 'rotate', 'sort', 'reverse'}
+
+
+def attr_writes(root: ast.AST, nested: bool = True):
+    """(attr, kind, node) for every write through an attribute below root:
+    x.A = / x.A op= / x.A[k] = / del x.A[k] / x.A.mutator(...)."""
+    it = ast.walk(root) if nested else walk_no_nested(root)
+    for n in it:
+        if isinstance(n, ast.AugAssign):
+            t = n.target
+            if isinstance(t, ast.Attribute):
+                yield t.attr, 'aug', n
+            elif isinstance(t, ast.Subscript) and isinstance(
+                    t.value, ast.Attribute):
+                yield t.value.attr, 'augitem', n
+        elif isinstance(n, (ast.Assign, ast.AnnAssign)):
+            if isinstance(n, ast.AnnAssign) and n.value is None:
+                continue
+            tg = n.targets if isinstance(n, ast.Assign) else [n.target]
+            for t in tg:
+                for tt in (t.elts if isinstance(t, (ast.Tuple, ast.List))
+                           else [t]):
+                    if isinstance(tt, ast.Attribute):
+                        yield tt.attr, 'assign', n
+                    elif isinstance(tt, ast.Subscript) and isinstance(
+                            tt.value, ast.Attribute):
+                        yield tt.value.attr, 'setitem', n
+        elif isinstance(n, ast.Delete):
+            for t in n.targets:
+                if isinstance(t, ast.Subscript) and isinstance(
+                        t.value, ast.Attribute):
+                    yield t.value.attr, 'delitem', n
+                elif isinstance(t, ast.Attribute):
+                    yield t.attr, 'del', n
+        elif isinstance(n, ast.Call) and isinstance(n.func, ast.Attribute) \
+                and n.func.attr in _MUT and isinstance(n.func.value,
+                                                       ast.Attribute):
+            yield n.func.value.attr, n.func.attr, n
+
+
+def module_attr_writes(m: Module):
+    """Memoised list of attribute writes anywhere in the module."""
+    return tree_memo(m.tree, 'attr_writes',
+                     lambda t: list(attr_writes(t, nested=True)))
+
+
+def _calls_by_name(tree):
+    idx: Dict[str, list] = {}
+    for n in ast.walk(tree):
+        if isinstance(n, ast.Call):
+            f = n.func
+            if isinstance(f, ast.Attribute):
+                idx.setdefault(f.attr, []).append(n)
+            elif isinstance(f, ast.Name):
+                idx.setdefault(f.id, []).append(n)
+    return idx
+
+
+def module_calls(m: Module) -> Dict[str, List[ast.Call]]:
+    """Memoised: last component of callee name -> calls in the module."""
+    return tree_memo(m.tree, 'calls', _calls_by_name)
+
+
+def module_nodes(m: Module, *types) -> list:
+    """Memoised list of all nodes of the given ast types in the module."""
+    key = 'nodes:' + ','.join(t.__name__ for t in types)
+    return tree_memo(m.tree, key, lambda t: [
+        n for n in ast.walk(t) if isinstance(n, types)])
